@@ -31,6 +31,8 @@ PROFILES = {
     'plans-edit': dict(BASE, planDump=1, wPlanEdit=12, wExtStatus=1, pSucceed=60, pFail=10, pPlanInCb=150, pGuardCancel=20, pGuardIssue=10, pIssue=10, maxBatch=1),
     'utility':   dict(BASE, kinds=0x31, pGuardCancel=30, pGuardIssue=30, pIssue=40, maxBatch=2, wReset=2, wImmediate=4),
     'utility-hostile': dict(BASE, kinds=0x31, palette=1, pGuardCancel=0, pGuardIssue=0, pIssue=20, maxBatch=1, wReset=2, wImmediate=6),
+    'utility-fine': dict(BASE, kinds=0x31, palette=2, fineUtil=1, pGuardCancel=0, pGuardIssue=0, pIssue=20, maxBatch=1, wReset=2, wImmediate=6),
+    'subst':     dict(BASE, pGuardCancel=300, pGuardIssue=350, pIssue=0, maxBatch=1, wImmediate=5),      # single requests that guards veto and replace
     'mirror':    dict(BASE, verboseMethods=1, logAnswers=1, structDump=1, pGuardCancel=100, pGuardIssue=80, wReset=2, wExitEnter=2, wQuery=2),
     'mirror-idle': dict(BASE, verboseMethods=1, logAnswers=1, structDump=1, pIssue=2, maxBatch=1, pGuardCancel=0, pGuardIssue=0, wQuery=0, wReact=0, wImmediate=1, wReset=0, wExitEnter=0),
     'mirror-plans': dict(BASE, verboseMethods=1, logAnswers=1, structDump=1, planDump=1, wPlanEdit=3, wExtStatus=2, pSucceed=150, pFail=40, pHeadStatus=50, pGuardCancel=40, pGuardIssue=20, pIssue=15, maxBatch=1),
@@ -57,9 +59,9 @@ SHAPE_PROPS = {
     'C08': dict(profiles=['serial'], title='save/load'),
     'C09': dict(profiles=['history', 'replica', 'single'], title='history'),
     'C11': dict(profiles=['ordinary', 'burst', 'alloc', 'memcheck'], title='memory safety / UB / assertions / allocation', flavours={'quick': ['clang-asan', 'gcc'], 'thorough': ['clang-asan', 'gcc-asan', 'gcc', 'clang-dev', 'gcc-O2']}),
-    'C12': dict(profiles=['utility', 'utility-hostile'], title='utility / random selection'),
+    'C12': dict(profiles=['utility', 'utility-hostile', 'utility-fine'], title='utility / random selection'),
     'C16': dict(profiles=['mirror', 'mirror-idle', 'mirror-plans'], title='logger / structure report', flavours={'quick': ['gcc', 'clang', 'clang-vlog'], 'thorough': ['gcc', 'clang', 'clang-vlog', 'gcc17', 'clang-dev']}),
-    'C13': dict(profiles=['single', 'mixed'], title='queries'),
+    'C13': dict(profiles=['single', 'mixed', 'subst'], title='queries'),
     'C14': dict(profiles=['payload'], title='payloads'),
 }
 RULES = {
@@ -125,7 +127,7 @@ def run_job(job):
         header, ops, trailer, stray = logparse.parse(logp)
         if header is None and not skey: raise RuntimeError('log has no header')
         # (machines using the built-in generator are checked differentially only: see Checker.lockstep_only)
-        knobs = {k: v for k, v in PROFILES[profile].items() if k in ('zeroUtil', 'palette', 'pConsume')}
+        knobs = {k: v for k, v in PROFILES[profile].items() if k in ('zeroUtil', 'palette', 'pConsume', 'fineUtil')}
         knobs['plans'] = 1 if PROFILES[profile].get('planDump') else 0
         knobs['mirror'] = 1 if PROFILES[profile].get('verboseMethods') else 0
         knobs['taskcap'] = sj['cfg'].get('taskcap') or 2 * sj['expect']['COMPO_PRONGS']
